@@ -236,7 +236,7 @@ def t_COMMENT(t):
 
 def t_MCOMMENT(t):
     r'/\*(.|\n)*?\*/'
-    t.lineno += t.value.count('\n')
+    t.lexer.lineno += t.value.count('\n')
     return  # discard token
 
 # These simple tokens must also be defined as functions, in order to control
